@@ -81,7 +81,11 @@ RULE = ("the lattice emitter kind (GaussianEmitter, IsoLineEmitter, GeneticAlgor
         "(quick) to 30 (thorough) operations (ask/tell iteration, iteration in which nothing is inserted, external add, "
         "clear) are drawn at random; every batch a clipping emitter's ask() hands out is overwritten in place after "
         "it was read, and initial_solutions cases end with clear / ask sequences, so that the configured initial "
-        "solutions must come back on every later empty archive. Stratum pycma_shared: two pycma_es emitters (different "
+        "solutions must come back on every later empty archive. In three iterations of ten the caller makes a call the "
+        "emitter must refuse and goes on (tell_dqd with a NaN / inf entry in the Jacobian, a Jacobian of the wrong "
+        "trailing shape or number of gradients, a wrong-length objective; tell with a wrong-length / NaN objective or "
+        "solutions of the wrong dimension; GradientArborescenceEmitter.ask / tell before any gradients): every later "
+        "ask is read as if the refused call had not been made. Stratum pycma_shared: two pycma_es emitters (different "
         "batch sizes, bounds, seeds) built from ONE shared es_kwargs dict, run past their restarts. Strata big_<es>: deterministic size-threshold cases for every strategy (batch 64-256 on "
         "solution_dim 1-3 with selection_rule mu on a sphere; LM-MA-ES with batch 32-48 on dimension 40-64 and with "
         "es_kwargs n_vectors 40 / 64; 26-70 uninterrupted generations), every ask read. Strata long_<es>: "
@@ -594,6 +598,70 @@ def trash(handed, ctx):
     ctx.count("tell:handed-arrays-overwritten")
 
 
+# --------------------------------------------------------------------------
+# calls the emitter must REFUSE, made in the middle of a history (the caller catches the error and goes on): malformed
+# arguments to tell_dqd / tell, ask / tell of the gradient arborescence emitter before any gradients.  Nothing is
+# demanded of the refused call itself here (that it raises is C11's / C19's business); what C08 reads is every ask()
+# that FOLLOWS: finite, shape, dtype, bounds, parents = current elites -- as if the refused call had never been made.
+
+DQD_REJECTS = ["jac_nan", "jac_nan", "jac_inf", "jac_shape", "jac_rows", "obj_len"]
+TELL_REJECTS = ["tell_len", "tell_nan", "tell_dim"]
+
+
+def refused(fn, which, ctx):
+    """True when fn() raised (the call was refused)"""
+    try:
+        fn()
+    except Exception as ex:  # pylint: disable=broad-except
+        ctx.count(f"rejected-call:{which}:{type(ex).__name__}")
+        return True
+    ctx.count(f"rejected-call:{which}:ACCEPTED")
+    return False
+
+
+def reject_tell_dqd(em, which, p, obj, meas, add_info, dim, rng, ctx):
+    """tell_dqd with one malformed argument (the others are fresh private copies of valid ones)"""
+    n = len(p)
+    jac = rng.integers(-4, 5, size=(n, 3, dim)).astype(np.float64) / 4
+    obj = np.array(obj, dtype=np.float64, copy=True)
+    if which in ("jac_nan", "jac_inf"):
+        if jac.size == 0:
+            return True
+        pos = tuple(int(rng.integers(0, s)) for s in jac.shape)
+        jac[pos] = np.nan if which == "jac_nan" else (np.inf if rng.random() < 0.5 else -np.inf)
+    elif which == "jac_shape":
+        jac = rng.integers(-4, 5, size=(n, 3, dim + 1)).astype(np.float64) / 4
+    elif which == "jac_rows":
+        jac = rng.integers(-4, 5, size=(n, 2, dim)).astype(np.float64) / 4
+    elif which == "obj_len":
+        obj = np.concatenate([obj, [0.0]])
+    else:
+        raise ValueError(which)
+    if jac.size == 0 and which in ("jac_shape", "jac_rows") and n == 0:
+        return True     # an empty batch has no malformed entry
+    handed = [np.array(p, copy=True), obj, np.array(meas, copy=True), jac,
+              {k: np.array(v, copy=True) for k, v in add_info.items()}]
+    return refused(lambda: em.tell_dqd(*handed), "tell_dqd:" + which, ctx)
+
+
+def reject_tell(em, which, out, obj, meas, add_info, rng, ctx):
+    """tell with one malformed argument"""
+    out = np.array(out, copy=True)
+    obj = np.array(obj, dtype=np.float64, copy=True)
+    if len(out) == 0:
+        return True
+    if which == "tell_len":
+        obj = obj[:-1] if rng.random() < 0.5 else np.concatenate([obj, [0.0]])
+    elif which == "tell_nan":
+        obj[int(rng.integers(0, len(obj)))] = np.nan
+    elif which == "tell_dim":
+        out = np.concatenate([out, out[:, :1]], axis=1)
+    else:
+        raise ValueError(which)
+    handed = [out, obj, np.array(meas, copy=True), {k: np.array(v, copy=True) for k, v in add_info.items()}]
+    return refused(lambda: em.tell(*handed), "tell:" + which, ctx)
+
+
 def clip_ask_step(info, case, drv, where, ctx, dqd=False):
     """One ask (or ask_dqd of GradientOperatorEmitter) of a clipping emitter, checked against oracle and model."""
     em, arch = info["em"], info["arch"]
@@ -823,6 +891,8 @@ def run_case(case, ctx):
             return pending
         jd = "f32" if kind == "gae_j32" else "f64"
         rng_j = np.random.default_rng(case["seed"] + 7)
+        rng_r = np.random.default_rng(case["seed"] + 11)    # what the refused calls are malformed with
+        gae_told = False
         for step, op in enumerate(case["ops"]):
             o = op["op"]
             where = f"op#{step} {o}"
@@ -839,6 +909,7 @@ def run_case(case, ctx):
             # ---- one ask/tell iteration
             asks = []
             noadd = bool(op.get("noadd"))   # the evaluation "failed": nothing is inserted, nothing is told
+            rej = op.get("reject")          # a call the emitter must refuse is made during this iteration
             if kind in CLIP_KINDS + ISO_KINDS:
                 out, f = clip_ask_step(info, case, drv, where + " ask", ctx)
                 if f is not None:
@@ -860,6 +931,8 @@ def run_case(case, ctx):
                           {k: np.array(v, copy=True) for k, v in add_info.items()}]
                 em.tell_dqd(*handed)
                 trash(handed, ctx)
+                if rej in DQD_REJECTS and not reject_tell_dqd(em, rej, p, obj, meas, add_info, dim, rng_r, ctx):
+                    return pending      # the malformed call was accepted: the history cannot continue
                 was_empty = bool(arch.empty)
                 if info["mg"] and not (was_empty and info["init"] is not None):
                     info["shadow"].rng.normal(loc=0.0, scale=info["gscale"], size=(len(p), 3))  # keep in step
@@ -891,6 +964,12 @@ def run_case(case, ctx):
                     return f
                 asks.append(("evolutionStrategy", out))
             else:  # GradientArborescenceEmitter
+                if op.get("early") and not gae_told:
+                    # ask / tell before any gradients were supplied: refused, after which the protocol starts properly
+                    refused(em.ask, "gae:ask-before-gradients", ctx)
+                    z = {"status": np.zeros(batch), "value": np.zeros(batch)}
+                    refused(lambda: em.tell(np.zeros((batch, dim)), np.zeros(batch), np.zeros((batch, 2)), z),
+                            "gae:tell-before-gradients", ctx)
                 p = em.ask_dqd()
                 f = oracle_array(where + " ask_dqd", p, 1, dim, sd, lo, hi)
                 if f is not None:
@@ -903,8 +982,16 @@ def run_case(case, ctx):
                           {k: np.array(v, copy=True) for k, v in add_info.items()}]
                 em.tell_dqd(*handed)
                 trash(handed, ctx)
-                out = em.ask()
-                f = oracle_array(where + " ask", out, batch, dim, sd, lo, hi)
+                gae_told = True
+                if rej in DQD_REJECTS and not reject_tell_dqd(em, rej, p, obj, meas, add_info, dim, rng_r, ctx):
+                    return pending
+                try:
+                    out = em.ask()
+                except Exception as ex:  # pylint: disable=broad-except
+                    return Failure("oracle", f"{where} ask: raised {type(ex).__name__}: {str(ex)[:80]}"
+                                   f"{' (after a refused tell_dqd: ' + rej + ')' if rej in DQD_REJECTS else ''}")
+                f = oracle_array(where + " ask" + (f" (after a refused tell_dqd: {rej})" if rej in DQD_REJECTS else ""),
+                                 out, batch, dim, sd, lo, hi)
                 if f is not None:
                     if f.key == "dtype":
                         f.key = "D23-gae-jacobian-dtype"
@@ -923,6 +1010,9 @@ def run_case(case, ctx):
                 ctx.count("iter:nothing-inserted")
             elif len(out):
                 add_info = arch.add(out, obj, meas)
+                if rej in TELL_REJECTS and not reject_tell(em, rej, out, obj, meas, add_info, rng_r, ctx) and \
+                        kind in ES_KINDS + GAE_KINDS:
+                    return pending      # (the operator emitters' tell is the inherited no-op: nothing to refuse)
                 try:
                     handed = [np.array(out, copy=True), np.array(obj, copy=True), np.array(meas, copy=True),
                               {k: np.array(v, copy=True) for k, v in add_info.items()}]
@@ -971,6 +1061,15 @@ def gen_ops(rng, state, dim, n_iter, kind, init=False):
             ops.append({"op": "iter", "noadd": True})
         else:
             ops.append({"op": "iter"})
+        if rng.random() < 0.3:
+            # a call the emitter must refuse is made in the middle of this iteration (run_case: reject_*)
+            pool = list(TELL_REJECTS)
+            if kind in GOP_KINDS + GAE_KINDS:
+                pool = DQD_REJECTS + DQD_REJECTS + TELL_REJECTS
+            ops[-1]["reject"] = rng.choice(pool)
+    if kind in GAE_KINDS and rng.random() < 0.5:
+        # ask() / tell() before the first tell_dqd (refused), then the protocol proper
+        next(o for o in ops if o["op"] == "iter")["early"] = True
     if init:
         # empty again after clear(): the configured initial solutions must come back, every time
         ops += [{"op": "clear"}, {"op": "iter", "noadd": True}, {"op": "iter"}, {"op": "clear"}, {"op": "iter"}]
